@@ -87,6 +87,7 @@ class ShardStats:
         self.fatal: Optional[str] = None
         self.by_sig: Dict[str, Tuple[Any, Violation]] = {}
         self.collect_all = False
+        self.known_cases: Dict[int, Any] = {}
 
     def _alarm(self, signum, frame):
         raise CaseTimeout()
@@ -158,6 +159,10 @@ class ShardStats:
         if idx is not None:
             self.known_hits[idx] += 1
             self.classes['known-finding'] += 1
+
+            if idx not in self.known_cases:
+                self.known_cases[idx] = jenc(case)
+
             return
 
         self.failures += 1
@@ -175,6 +180,7 @@ class ShardStats:
                'classes': dict(self.classes),
                'samples': self.samples,
                'known_hits': dict(self.known_hits),
+               'known_cases': self.known_cases,
                'violation': None, 'error': self.fatal}
 
         if self.last_failure:
@@ -207,6 +213,33 @@ def run_shard(args) -> Dict[str, Any]:
 
     try:
         mod = load_module(prop)
+        witness = None
+
+        if famname.startswith('__witness__:'):
+            # deterministic re-run of the stored witness case of one finding
+            known = load_known(prop)
+            witness = known[int(famname.split(':')[1])]['witness']
+            fam = mod.FAMILIES[_family_index(mod, witness['family'])]
+            stats = ShardStats(prop, fam, known)
+
+            if fam.worker_init:
+                fam.worker_init()
+
+            try:
+                stats.run(jdec(witness['case']))
+            except Violation:
+                pass
+
+            res = stats.result()
+            res['family'] = famname
+            res['evaluations'] = 0
+            res['classes'] = {}
+            res['nontrivial'] = []
+            res['samples'] = {}
+            res['violation'] = None
+            res['violations'] = []
+            return res
+
         fam = mod.FAMILIES[_family_index(mod, famname)]
         stats = ShardStats(prop, fam, load_known(prop))
 
@@ -399,10 +432,18 @@ def main(prop: str, tier: str, seed: int, only: Optional[str] = None,
         for shard in range(nshards):
             tasks.append((prop, fam.name, tier, seed, shard, nshards, per))
 
+    if not only:
+        for i, k in enumerate(known):
+            if k.get('witness'):
+                tasks.insert(0, (prop, '__witness__:%d' % i, tier, seed, 0,
+                                 1, 0))
+
     nproc = min(len(tasks), int(os.environ.get('VERIF_JOBS', '16')))
     results = run_tasks(tasks, nproc, tier)
 
-    errors = [r['error'] for r in results if r['error']]
+    errors_pre: List[str] = []
+    errors = [r['error'] for r in results if r['error'] and
+              not r['family'].startswith('__witness__:')]
     evaluations = sum(r['evaluations'] for r in results)
     nontrivial = set()
     classes: Counter = Counter()
@@ -413,7 +454,21 @@ def main(prop: str, tier: str, seed: int, only: Optional[str] = None,
     violations = []
     seen_sigs = set()
 
+    known_cases: Dict[int, Any] = {}
+    witness_hits: Counter = Counter()
+
     for r in sorted(results, key=lambda r: r['family']):
+        for idx, case in r.get('known_cases', {}).items():
+            known_cases.setdefault(int(idx), {'family': r['family'],
+                                              'case': case})
+
+        if r['family'].startswith('__witness__:'):
+            for idx, n in r['known_hits'].items():
+                witness_hits[int(idx)] += n
+            if r['error']:
+                errors_pre.append(r['error'])
+            continue
+
         fam_evals[r['family']] += r['evaluations']
         nontrivial.update(r['family'] + ':' + h for h in r['nontrivial'])
 
@@ -483,9 +538,25 @@ def main(prop: str, tier: str, seed: int, only: Optional[str] = None,
     for name, n in sorted(fam_evals.items()):
         print('  family %-28s %7d cases' % (name, n))
 
-    for idx, n in sorted(known_hits.items()):
-        print('KNOWN-FINDING: property=%s %s (hit by %d generated cases)' %
-              (prop, known[idx]['what'], n))
+    errors.extend(errors_pre)
+
+    for idx in sorted(set(known_hits) | set(witness_hits)):
+        print('KNOWN-FINDING: property=%s %s (witness case %s; hit by %d '
+              'generated cases)' %
+              (prop, known[idx]['what'],
+               'reproduces' if witness_hits.get(idx) else
+               'not stored' if not known[idx].get('witness') else
+               'does NOT reproduce', known_hits.get(idx, 0)))
+
+    if os.environ.get('VERIF_CAPTURE_WITNESS'):
+        # development aid (never used by registered checks): remember the
+        # first generated case that hit each known finding
+        path = os.path.join(VERIF, 'known', 'witness_%s.json' % prop)
+        os.makedirs(os.path.dirname(path), exist_ok=True)
+
+        with open(path, 'w') as f:
+            json.dump({known[i]['sig']: w for i, w in known_cases.items()},
+                      f, indent=1, sort_keys=True)
 
     if violations:
         confirmed = 0
